@@ -132,8 +132,15 @@ FoldV(t, vals, j) ==
        \o FoldV(t, vals, j + 1)
 CtxFields(t, vals) == CtxOf(FoldN(t, vals, 1), FoldV(t, vals, 1))
 
+\* a length that is just the name of an earlier unsigned field holding 2^24 or more (what a corrupted length field looks like):
+\* beyond the integers the expression model is guarded to, but certainly more elements than any input here holds
+HugeLen == 16000000
+BareHuge(len, ctx) ==
+  /\ len.k = "expr" /\ len.e.k = "id" /\ len.e.name \in DOMAIN ctx
+  /\ LET v == ctx[len.e.name] IN v.k = "int" /\ ~v.neg /\ Len(v.mag) >= 4
 ArrLen(len, ctx, consts) ==   \* number of elements of a fixed / expression array; XX = outside the domain
   IF len.k = "fixed" THEN len.n
+  ELSE IF BareHuge(len, ctx) THEN HugeLen
   ELSE LET n == EvalAst(len.e, ctx, consts) IN IF n = XX THEN XX ELSE Max2(0, n)
 
 -----------------------------------------------------------------------------
